@@ -98,3 +98,23 @@ pub fn small_signed(neg: bool, bytes: &[u8]) -> Option<i128> {
         None
     }
 }
+
+/// wire encoding {s, m} of a primitive integer, by plain widening casts (no library conversion)
+pub trait PrimEnc {
+    fn penc(self) -> serde_json::Value;
+}
+fn mag_to_value(neg: bool, m: u128) -> serde_json::Value {
+    let mut mv = m.to_le_bytes().to_vec();
+    while mv.last() == Some(&0) {
+        mv.pop();
+    }
+    serde_json::json!({"s": if neg && !mv.is_empty() { 1 } else { 0 }, "m": mv})
+}
+macro_rules! impl_prim_enc_unsigned {
+    ($($t:ty)*) => {$(impl PrimEnc for $t { fn penc(self) -> serde_json::Value { mag_to_value(false, self as u128) } })*};
+}
+macro_rules! impl_prim_enc_signed {
+    ($($t:ty)*) => {$(impl PrimEnc for $t { fn penc(self) -> serde_json::Value { mag_to_value(self < 0, (self as i128).unsigned_abs()) } })*};
+}
+impl_prim_enc_unsigned!(u8 u16 u32 u64 u128 usize);
+impl_prim_enc_signed!(i8 i16 i32 i64 i128 isize);
